@@ -206,7 +206,11 @@ def spec_to_python(pkg, spec):
 
 
 def server_for(case, **kw):
-    return RefServer(case["sdl"], seed=case.get("server_seed", 0), null_p=case.get("null_p", 0.2), **kw)
+    merged = dict(case.get("server_kw") or {})
+    merged.update(kw)
+    if "unique_scalars" in merged and isinstance(merged["unique_scalars"], list):
+        merged["unique_scalars"] = set(merged["unique_scalars"])
+    return RefServer(case["sdl"], seed=case.get("server_seed", 0), null_p=case.get("null_p", 0.2), **merged)
 
 
 class Session:
